@@ -569,17 +569,17 @@ func (rule *RuleExpression) checkWorkflowCall(c *WorkflowCall) {
 		var ty ExprType = StringType{}
 		switch len(ts) {
 		case 0:
-			switch v {
-			case "null":
-				ty = NullType{}
-			case "true", "false":
-				ty = BoolType{}
-			default:
-				// Read the value as YAML does. strconv.ParseFloat also accepts texts which are strings
-				// in YAML (nan, inf, Infinity) and rejects integers like 0x10
+			// Read the value as YAML does. A quoted value is a string. Booleans and null have several
+			// spellings (True, ~). strconv.ParseFloat also accepts texts which are strings in YAML
+			// (nan, inf, Infinity) and rejects integers like 0x10
+			if !i.Value.Quoted && v != "" {
 				var y interface{}
 				if err := yaml.Unmarshal([]byte(v), &y); err == nil {
 					switch y.(type) {
+					case nil:
+						ty = NullType{}
+					case bool:
+						ty = BoolType{}
 					case int, int64, uint64, float64:
 						ty = NumberType{}
 					}
